@@ -7,6 +7,7 @@ import (
 	"fmt"
 	"math"
 	"math/big"
+	"reflect"
 	"sort"
 	"strconv"
 	"time"
@@ -419,7 +420,7 @@ func (v Val) Depth() int {
 // and marshalled again (map keys sorted by encoding/json). Unmarshalable values render as an
 // error marker.
 func Canon(x interface{}) string {
-	b, err := json.Marshal(x)
+	b, err := json.Marshal(markJSONNumbers(x))
 	if err != nil {
 		return "!marshal-error:" + err.Error()
 	}
@@ -437,6 +438,7 @@ func Canon(x interface{}) string {
 
 // Normalize returns the float64-based JSON form of any value.
 func Normalize(x interface{}) interface{} {
+	x = markJSONNumbers(x)
 	b, err := json.Marshal(x)
 	if err != nil {
 		return "!marshal-error:" + err.Error()
@@ -446,6 +448,62 @@ func Normalize(x interface{}) interface{} {
 		return "!decode-error:" + err.Error()
 	}
 	return out
+}
+
+// markJSONNumbers: a number that a datatype hands out as a json.Number (a decoder left in "UseNumber" mode) looks
+// like a float64 in every JSON rendering; through the API it is a different value (a string type). It is made
+// visible as a marker string in the generic containers (map[string]interface{}, []interface{}) the library returns.
+func markJSONNumbers(x interface{}) interface{} {
+	switch t := x.(type) {
+	case json.Number:
+		return "!json.Number(" + string(t) + ")"
+	case map[string]interface{}:
+		var out map[string]interface{}
+		for k, v := range t {
+			if nv := markJSONNumbers(v); !sameIface(nv, v) {
+				if out == nil {
+					out = make(map[string]interface{}, len(t))
+					for k2, v2 := range t {
+						out[k2] = v2
+					}
+				}
+				out[k] = nv
+			}
+		}
+		if out != nil {
+			return out
+		}
+	case []interface{}:
+		var out []interface{}
+		for i, v := range t {
+			if nv := markJSONNumbers(v); !sameIface(nv, v) {
+				if out == nil {
+					out = append([]interface{}{}, t...)
+				}
+				out[i] = nv
+			}
+		}
+		if out != nil {
+			return out
+		}
+	}
+	return x
+}
+
+// sameIface tells whether markJSONNumbers returned its argument unchanged (only markers and rebuilt containers differ).
+func sameIface(a, b interface{}) bool {
+	switch a.(type) {
+	case string:
+		s, ok := b.(string)
+		return ok && s == a.(string)
+	case map[string]interface{}:
+		mb, ok := b.(map[string]interface{})
+		return ok && reflect.ValueOf(a).Pointer() == reflect.ValueOf(mb).Pointer()
+	case []interface{}:
+		sb, ok := b.([]interface{})
+		return ok && len(sb) == len(a.([]interface{})) && (len(sb) == 0 || &sb[0] == &a.([]interface{})[0])
+	}
+	return true
 }
 
 // f32 is the float64 that the JSON encoding of a float32 carries (same shortest decimal form).
